@@ -67,6 +67,18 @@ M3 = {
  "C19": ("dispatch_block_cancel returns early when the block object has already been performed", "cancel after the block's first execution completed, then testcancel / another execution", "tr_block oracle (testcancel after cancel; body ran after cancel)", False),
  "C20": ("base32 decoder: pad count became local to the per-region block (restarts at 0 for every region)", "Base32 / Base32Hex text whose trailing '=' run is cut by a region boundary", "L-fn differential on fragmented inputs against B32 / B32H; round-trip oracle", False),
 }
+M4 = {
+ "C01": ("_dispatch_queue_class_invoke passes done=true to drain_try_unlock also for WAIT_FOR_EVENT (out of width): DIRTY is not left", "a concurrent queue with more unfinished asynchronous items than width, refilled at least twice, one in-flight item waiting for a later one", "lane storm in narrow mode (dispatch_queue_set_width 2 / 5, flooded, first item waits for the last) (added): stranded items; the unlock transition is then also not a step of LaneW", True),
+ "C02": ("_dispatch_runloop_root_queue_perform_4CF holds an internal instead of an external reference across the item", "a run-loop queue whose last external reference is released by the running item while more items are queued", "c02_mainq run-loop queue rounds (added): overlap / order", True),
+ "C03": ("_dispatch_thread_event_wait_slow returns as soon as the futex wait reports 0 (no re-read of the event word)", "a parked synchronous caller and a stray FUTEX_WAKE / spurious futex return", "c03_hier with spurious futex returns injected at the parked callers (added): overlap in the hierarchy", True),
+ "C04": ("_dispatch_lane_resume tests 'suspended' instead of 'not runnable' before taking the barrier lock", "reader running, barrier parked behind it (PENDING_BARRIER), queue suspended and resumed", "lane storm: barrier order oracle / library trap", False),
+ "C05": ("_dispatch_sema4_timedwait returns 'acquired' on EINTR", "a timed semaphore wait interrupted by a signal handler installed without SA_RESTART", "c05_hb with signals sent to the thread that runs the semaphore / group / once edges (added)", True),
+ "C06": ("dispatch_activate on an inactive queue with an outstanding suspension clears NEEDS_ACTIVATION too (gives one suspension back)", "queue created inactive, suspended, then activated before the resumes", "c06_suspend scenario 7 (inactive, suspended, activated first) (added); the transition is not a step of ActP", True),
+ "C07": ("the leave that empties the group wakes with the state saved before its compare-and-swap (a HAS_NOTIFS set in between is cleared without being served)", "waiters bit pending, empty notification list, dispatch_group_notify landing between the leave's add and its compare-and-swap", "tr_group 'wn' mode (added): the notification is never submitted", True),
+ "C08": ("_dispatch_sema4_timedwait tests errno == ETIMEDOUT without ret == -1 (stale errno from an earlier timeout)", "a thread whose errno is ETIMEDOUT from an earlier timed-out wait, then a timed wait that is woken by a signal", "tr_sema: waiter never released (no-progress watchdog added: the first detection took 20 minutes of time-outs)", False),
+ "C09": ("the DONE test of _dispatch_once_wait hoisted in front of its rmw loop", "the owner's exchange landing between a waiter's load and its compare-and-swap: the waiter sleeps on the DONE word for ever", "tr_once: callers never released", False),
+ "C10": ("_futex_blocking_op returns EINTR for untimed waits and _dispatch_thread_event_wait_slow treats any return but EWOULDBLOCK as a wake-up", "a signal (handler without SA_RESTART) at the thread that called dispatch_apply while it waits for the helpers", "tr_apply with signals sent to the calling threads (added): return before all invocations finished", True),
+}
 root = os.path.join(os.path.dirname(os.path.dirname(os.path.abspath(__file__))), "seeded")
 for k, (what, needs, caught, strengthened) in sorted(M.items()):
     d = os.path.join(root, k)
@@ -99,4 +111,15 @@ for k, (what, needs, caught, strengthened) in sorted(M3.items()):
                "check_run": "scripts/try_seed.sh %s seeded3/%s" % (k, k),
                "caught_by": caught, "tier": "quick", "missed_at_first_and_check_strengthened": strengthened},
               open(os.path.join(d, "meta.json"), "w"), indent=1)
-print("meta.json written for", len(M), "+", len(M2), "+", len(M3), "seeds")
+root4 = os.path.join(os.path.dirname(root), "seeded4")
+for k, (what, needs, caught, strengthened) in sorted(M4.items()):
+    d = os.path.join(root4, k)
+    if not os.path.isdir(d): continue
+    lines = open(os.path.join(d, "confirm.log")).read().strip().splitlines() if os.path.exists(os.path.join(d, "confirm.log")) else []
+    json.dump({"property": k, "round": 4, "change": what, "needs_to_manifest": needs,
+               "produced_by": "sub-agent given the property text, its own scratch worktree, and one-line descriptions of the three earlier seeds to avoid",
+               "confirmed": {"how": "scripts/confirm_seed.sh %s /verif/seeded4/%s" % (k, k), "result": " | ".join(lines[-2:]) or "not confirmed"},
+               "check_run": "scripts/try_seed.sh %s seeded4/%s" % (k, k),
+               "caught_by": caught, "tier": "quick", "missed_at_first_and_check_strengthened": strengthened},
+              open(os.path.join(d, "meta.json"), "w"), indent=1)
+print("meta.json written for", len(M), "+", len(M2), "+", len(M3), "+", len(M4), "seeds")
